@@ -361,11 +361,17 @@ def program_source(prog, uid="") -> str:
     else:
         params = ", ".join(f"f{i}: {_ann(f, uid)} = None" for i, f in enumerate(fields))
         ret = "{" + ", ".join(f"'f{i}': f{i}" for i in range(len(fields))) + "}"
-        decl = f"@utype.parse\ndef A({params}):\n    return {ret}\n"
+        if prog.get("ret"):
+            # the result itself is parsed through a forward reference: -> 'R'  (class R: x: int; n: int = 0)
+            decl = f"@utype.parse\ndef A({params}) -> 'R{uid}':\n    return {{'x': '5', 'n': len([v for v in {ret}.values() if v is not None])}}\n"
+        else:
+            decl = f"@utype.parse\ndef A({params}):\n    return {ret}\n"
         if prog.get("local"):
             decl = "def _make():\n" + "".join("    " + l + "\n" for l in decl.splitlines()) + "    return A\nA = _make()\n"
     used = sorted({f["to"] for f in fields if f.get("to") in TARGET_NAMES}) or TARGET_NAMES[:1]
     targets = "".join(f"class {n}{uid}(Schema):\n    x: int\n" for n in used)
+    if prog.get("ret"):
+        targets += f"class R{uid}(Schema):\n    x: int\n    n: int = 0\n"
     return imp + decl + targets
 
 
@@ -443,6 +449,8 @@ def impl(case):
     """Run one (program, schedule) on the real utype."""
     if case.get("op") == "registry":
         return impl_registry(case)
+    if case.get("op") == "apf":
+        return impl_apf(case)
     prog, threads = case["prog"], case["threads"]
     # the sequential references depend on the declaration and the calls only: computed once per worker
     mk = json.dumps([prog, threads], sort_keys=True)
@@ -470,6 +478,15 @@ def probe(case):
     """step counts of every thread when it runs first and alone to its end (upper bounds for the enumeration)"""
     if case.get("op") == "registry":
         return probe_registry(case)
+    if case.get("op") == "apf":
+        out = []
+        for t in range(len(case["threads"])):
+            do, post = _apf_env(case)
+            s = Sched([[t, 10 ** 9]], case.get("mode", "vis"), case.get("points") or ["apf"])
+            s.run([(lambda ops=ops: [do(op) for op in ops]) for ops in case["threads"]])
+            post()
+            out.append(s.per_thread[t])
+        return {"steps": out}
     prog, threads = case["prog"], case["threads"]
     out = []
     for t in range(len(threads)):
@@ -593,6 +610,62 @@ def impl_registry(case):
             "trace": s.trace, "steps": s.per_thread, "deadlock": s.deadlock}
 
 
+# ---- the module-level parser cache `__parsers__` (BaseParser.apply_for): spec sweep only -------------
+
+def _apf_env(case):
+    from utype.parser.cls import ClassParser
+    k = next(_MOD)
+    name = f"_c20_mod_{k}"
+    m = types.ModuleType(name)
+    sys.modules[name] = m
+    src = "".join(f"class P{i}:\n    a: int\n    b: str = ''\n" for i in range(case.get("nclasses", 2)))
+    exec(compile(src, name, "exec", dont_inherit=True), m.__dict__)
+    got = []
+
+    def do(op):
+        cls = getattr(m, f"P{op['cls']}")
+        try:
+            p = ClassParser.apply_for(cls)
+            got.append(p)
+            return {"obj": p.obj is cls, "fields": sorted(p.fields), "type": type(p).__name__}
+        except _Abort:
+            raise
+        except Exception as e:
+            return {"err": type(e).__name__}
+
+    def post():
+        out = []
+        for i in range(case.get("nclasses", 2)):
+            cls = getattr(m, f"P{i}")
+            p = ClassParser.apply_for(cls)
+            made = [q for q in got if q.obj is cls]
+            out.append({"obj": p.obj is cls, "fields": sorted(p.fields), "cached": (not made) or any(p is q for q in made)})
+        sys.modules.pop(name, None)
+        return out
+
+    return do, post
+
+
+def impl_apf(case):
+    threads = case["threads"]
+    do, post = _apf_env(case)
+    seq_outs = [[do(op) for op in ops] for ops in threads]
+    seq_post = post()
+    alone = []
+    for ops in threads:
+        row = []
+        for op in ops:
+            d, p = _apf_env(case)
+            row.append(d(op))
+            p()
+        alone.append(row)
+    do, post = _apf_env(case)
+    s = Sched(case["sched"], case.get("mode", "vis"), case.get("points") or ["apf"])
+    outs = s.run([(lambda ops=ops: [do(op) for op in ops]) for ops in threads])
+    return {"outs": outs, "post": None if s.deadlock else post(), "seq": seq_outs, "seq_post": seq_post, "alone": alone,
+            "trace": s.trace, "steps": s.per_thread, "deadlock": s.deadlock}
+
+
 def probe_registry(case):
     out = []
     for t in range(len(case["threads"])):
@@ -620,7 +693,7 @@ def modelled(case) -> bool:
         return False
     if sorted(case.get("points") or []) != sorted(FWD_POINTS):
         return False
-    return all(f["ann"] in MODELLED_ANN for f in case["prog"]["fields"])
+    return all(f["ann"] in MODELLED_ANN for f in case["prog"]["fields"]) and not case["prog"].get("ret")
 
 
 def world_of(prog):
@@ -690,7 +763,10 @@ def gen_prog(rng, small=False):
         fields.append({"ann": ann, "to": to})
     if not any(f["ann"] != "plain" for f in fields):
         fields[0] = {"ann": "ref", "to": "B"}
-    return {"kind": kind, "local": local, "fields": fields}
+    prog = {"kind": kind, "local": local, "fields": fields}
+    if kind == "fn" and not local and rng.random() < 0.3:
+        prog["ret"] = True      # (a function-local function with a forward-referenced result fails sequentially: C17)
+    return prog
 
 
 def gen_threads(rng, prog, n):
@@ -810,13 +886,20 @@ class C20(Check):
         for i in range(nreg):
             nt = 2 if (tier == "quick" or rng.random() < 0.6) else 3
             items.append(gen_registry(rng, nt, with_reg=(i % 5 == 4)))
+        first_apf = len(items)
+        for i in range({"quick": 2, "thorough": 6, "search": 2}[tier]):
+            nt = 2 if i % 2 == 0 else 3
+            items.append({"op": "apf", "nclasses": 2, "points": ["apf"], "mode": "vis",
+                          "threads": [[{"cls": rng.randrange(2)} for _ in range(rng.randint(1, 2))] for _ in range(nt)]})
         Ls = self._probe(items)
         per_item = max(20, (n - 0) // max(1, len(items)))
         for idx, (it, L) in enumerate(zip(items, Ls)):
             if not L:
                 L = [40] * len(it["threads"])
             nt = len(it["threads"])
-            if idx >= first_reg:
+            if idx >= first_apf:
+                scheds = schedules_2(L, 2) if nt == 2 else [random_schedule(rng, L, nt, rng.randint(1, 3)) for _ in range(100)]
+            elif idx >= first_reg:
                 scheds = schedules_2(L, 2) if nt == 2 else []
                 if len(scheds) > 150:
                     rng.shuffle(scheds)
@@ -971,17 +1054,19 @@ class C20(Check):
         counts = [sum(1 for t, _ in tr if t == k) for k in range(len(case["threads"]))]
         if self._preemptions(tr, counts) == 0:
             return None
-        deep = any(l.split(":")[0] in ("rfr", "res") and l not in ("rfr:chk", "res:cchk") for _, l in tr)
+        deep = any(l.split(":")[0] in ("rfr", "res", "apf") and l not in ("rfr:chk", "res:cchk") for _, l in tr)
         if not deep:
             return None
         return json.dumps([case.get("prog") or [case.get("init"), case.get("cache")], case["threads"], tr], sort_keys=True)
 
     def distribution(self, case, io):
+        if case.get("op") == "apf":
+            return f"apply_for/threads={len(case['threads'])}/spec-only"
         if case.get("op") == "registry":
             hr = any("reg" in op for ops in case["threads"] for op in ops)
             return f"registry/cache={case['cache']}/threads={len(case['threads'])}/{'with-register' if hr else 'lookups-only'}"
         p = case["prog"]
-        anns = "+".join(f["ann"] + ("!" if f["to"] == "U" else "") for f in p["fields"])
+        anns = "+".join(f["ann"] + ("!" if f["to"] == "U" else "") for f in p["fields"]) + ("->ref" if p.get("ret") else "")
         pre = "?"
         if isinstance(io, dict) and "trace" in io:
             tr = io["trace"]
@@ -1004,6 +1089,71 @@ class C20(Check):
     def reproduce(self, case):
         return (f"UTYPE_REPO={common.REPO} {common.PY} -c 'import json,sys; sys.path[:0]=[\"{common.REPO}\",\"{common.VERIF}\"]; "
                 f"from harness.c20 import impl; print(json.dumps(impl(json.loads(sys.argv[1]))))' '{json.dumps(case, sort_keys=True)}'")
+
+    # ---- static obligation: the scheduling points the models know are where they are expected ----------
+    REQUIRED = {
+        "rfr": ["chk", "lock", "list", "get", "eval", "isev", "rdval", "wr", "popd", "addn", "clr1", "clr2"],
+        "frf": ["pos?", "ret?"], "fld": ["ty?", "ty", "oty?"], "rft": ["isev", "rdval"], "pv": ["rdty", "errty"],
+        "tc": ["isev", "rdval"], "res": ["cget", "iter", "cset"], "reg": ["ins", "sort", "clr"],
+        "apf": ["chk", "get", "set"],
+    }
+    ALL_NAMED = ("rfr", "frf", "fld", "rft", "res", "reg", "apf")     # no unnamed shared-state line allowed here
+
+    def extra_static(self, tier):
+        """read the traced functions from $UTYPE_REPO with `ast` (nothing imported): every label the models use
+        must exist, and the parser / registry functions must not have shared-state lines the models do not know"""
+        import ast
+        broken = []
+        found: dict = {}
+        seen_fn = set()
+        for (suf, qn), tag in TARGETS.items():
+            path = common.REPO / suf
+            try:
+                src = path.read_text()
+                tree = ast.parse(src)
+            except Exception as e:
+                broken.append(f"static: cannot read {suf}: {e}")
+                continue
+            lines = src.splitlines()
+            node = None
+
+            def find(body, parts):
+                for n in body:
+                    if isinstance(n, (ast.FunctionDef, ast.AsyncFunctionDef, ast.ClassDef)) and n.name == parts[0]:
+                        if len(parts) == 1:
+                            return n
+                        return find(n.body, parts[1:])
+                return None
+
+            node = find(tree.body, [x for x in qn.split(".") if x != "<locals>"])
+            if node is None:
+                continue
+            seen_fn.add(tag)
+            inner = set()
+            for n in ast.walk(node):
+                if n is not node and isinstance(n, (ast.FunctionDef, ast.AsyncFunctionDef)):
+                    inner.update(range(n.lineno, n.end_lineno + 1))
+            for ln in range(node.lineno + 1, node.end_lineno + 1):
+                if ln in inner:
+                    continue
+                raw = lines[ln - 1].split("#")[0]
+                if not SHARED.search(raw) or raw.strip().startswith("global "):
+                    continue
+                txt = raw.strip()
+                name = next((nm for pat, nm in NAMES.get(tag, []) if re.match(pat, txt)), None)
+                if name is None:
+                    if tag in self.ALL_NAMED:
+                        broken.append(f"static: {suf}:{ln} `{txt[:70]}` touches shared state but is not a line the model knows ({tag})")
+                else:
+                    found.setdefault(tag, set()).add(name)
+        for tag, names in self.REQUIRED.items():
+            if tag not in seen_fn:
+                broken.append(f"static: no traced function for `{tag}` found in {common.REPO}")
+                continue
+            for nm in names:
+                if nm not in found.get(tag, ()):
+                    broken.append(f"static: scheduling point {tag}:{nm} not found in the source")
+        return broken
 
     def finish_evidence(self, ev, tier):
         ev["coverage"]["exhaustive"] = False
